@@ -309,7 +309,7 @@ impl Property for P {
     }
     fn rule(&self) -> String {
         "Generated: (suite of 48, mode, ikmR, ikmS, psk>=1B, psk_id>=1B, info, RNG stream, 0..=6 messages, 0..=3 exports with L<=255*Nh); \
-         in 20% of the cases the first message is at a non-zero sequence position (byte-carry boundaries, log-uniform; hpke contexts placed through the hook); swept: all 48x4 suite/mode cells with a fixed script, every sequence byte-carry boundary x 3 AEADs, and P-256 sessions (3 KDFs x 4 modes x sealing/export-only) whose RNG delivers each committed golden ikm with a first DeriveKeyPair candidate >= n (ephemeral key on the counter-1 retry path); replayed: 6 verified RFC 9180 anchors and 243 golden vectors through hpke itself. \
+         in 20% of the cases the first message is at a non-zero sequence position (byte-carry boundaries, log-uniform; hpke contexts placed through the hook); swept: all 48x4 suite/mode cells with a fixed script, every sequence byte-carry boundary x 3 AEADs, and P-256 sessions (3 KDFs x 4 modes x sealing/export-only) whose RNG delivers each committed golden ikm with a first DeriveKeyPair candidate >= n (ephemeral key on the counter-1 retry path), and every length of info (0..=1100), psk and psk_id (1..=600) and exporter context (0..=1100, multi-block L) per KDF; replayed: 6 verified RFC 9180 anchors and 243 golden vectors through hpke itself. \
          Oracle: independent RFC 9180 reference model (own HKDF, own curve arithmetic), hpke-as-sender and hpke-as-receiver; as a sender the reference sometimes chooses the ephemeral private key itself (1..3, n-1..n-3 on the NIST curves: enc is the generator or a small multiple of it). \
          Non-trivial: a non-Base mode, or >=2 messages (nonce increments), or non-empty info with non-empty aad, or a committed vector; distinct by case encoding."
             .into()
@@ -390,9 +390,37 @@ impl Property for P {
                 }
             }
         }
+        // dense lengths of every variable-length input (X25519, one suite per KDF): info 0..=1100,
+        // psk and psk_id 1..=600 (Psk mode), exporter context 0..=1100 with a multi-block L; a fixed
+        // stack buffer or a length prefix computed wrongly fails at a length no edge list contains
+        let mut dense = Vec::new();
+        for (ki, kdf) in r::KdfId::ALL.into_iter().enumerate() {
+            let su = r::Suite { kem: r::KemId::X25519, kdf, aead: if ki == 2 { r::AeadId::Export } else { r::AeadId::ChaCha } };
+            let one_msg = vec![gen::fixed_msgs(25)[0].clone()];
+            for l in 0..=1100usize {
+                let mut a = gen::cell_session(su, 0, 25);
+                a.info = Bytes(gen::fill(l, 5, 250 + l as u64));
+                dense.push(Case::Session { sess: a, msgs: one_msg.clone(), exports: vec![], start: 0 });
+            }
+            for l in 1..=600usize {
+                let mut a = gen::cell_session(su, 1, 26);
+                a.psk = Bytes(gen::fill(l, 5, 260 + l as u64));
+                dense.push(Case::Session { sess: a, msgs: one_msg.clone(), exports: vec![], start: 0 });
+                let mut b = gen::cell_session(su, 3, 27);
+                b.psk_id = Bytes(gen::fill(l, 5, 270 + l as u64));
+                dense.push(Case::Session { sess: b, msgs: one_msg.clone(), exports: vec![], start: 0 });
+            }
+            let mut from = 0usize;
+            while from <= 1100 {
+                let to = (from + 99).min(1100);
+                let exports: Vec<ExportReq> = (from..=to).map(|cl| ExportReq { ctx: Bytes(gen::fill(cl, 5, 280 + cl as u64)), len: kdf.nh() + 1 + cl % 50 }).collect();
+                dense.push(Case::Session { sess: gen::cell_session(su, ki as u8, 28), msgs: vec![], exports, start: 0 });
+                from = to + 1;
+            }
+        }
         let anchors: Vec<Case> = (0..vectors("anchors").len()).map(|i| Case::Vector { file: "anchors".into(), index: i }).collect();
         let golden: Vec<Case> = (0..vectors("golden").len()).map(|i| Case::Vector { file: "golden".into(), index: i }).collect();
-        vec![("rfc9180_anchors".into(), anchors), ("golden_vectors".into(), golden), ("suite_x_mode_cells".into(), cells), ("sequence_boundaries_x_aead".into(), high), ("ephemeral_ikm_equals_static_ikm".into(), same), ("ephemeral_ikm_on_the_p256_retry_path".into(), retry)]
+        vec![("rfc9180_anchors".into(), anchors), ("golden_vectors".into(), golden), ("suite_x_mode_cells".into(), cells), ("sequence_boundaries_x_aead".into(), high), ("ephemeral_ikm_equals_static_ikm".into(), same), ("ephemeral_ikm_on_the_p256_retry_path".into(), retry), ("every_length_of_info_psk_pskid_exporter_context".into(), dense)]
     }
     fn check(&self, case: &Case, obs: &mut Obs) -> Verdict {
         match case {
